@@ -138,14 +138,15 @@ class IoWorld(World):
         if kind == "ENU":
             x = r.choice([0.0, -0.0004, 123456.7894, -987654.3216, -999999.4, r.uniform(-9e5, 9e5),
                           round(r.uniform(-1e3, 1e3), 3), r.uniform(-1, 1) * 1e-5,
-                          15600123.456, -20037508.342])          # projected (Web-Mercator) metres: eight integer digits
+                          15600123.456, -20037508.342,           # projected (Web-Mercator) metres: eight integer digits
+                          5, -120])                              # whole metres given as ints
             return [x, r.choice([r.uniform(-1e5, 1e5), r.uniform(-1e5, 1e5), r.uniform(-1e5, 1e5), 19971868.88]),
                     r.choice([0.0, -12.3456, 8848.0005, r.uniform(-500, 9000)])]
         if kind == "GEO":
             return [r.choice([-179.99999999999, 179.123456789012, 0.0, r.uniform(-180, 180),
                               2.123456789, r.uniform(-180, 180), r.uniform(-180, 180), 180.0, -180.0]),
                     r.choice([r.uniform(-89.9, 89.9), r.uniform(-89.9, 89.9), 48.5, -12.25, r.uniform(-89.9, 89.9),
-                              r.uniform(-89.9, 89.9), 90.0, -90.0]),   # positions repeat
+                              r.uniform(-89.9, 89.9), 90.0, -90.0, 45]),   # positions repeat
                     r.choice([0.0, -100.5, 9999.123456, r.uniform(-400, 9000)])]
         # -999999.x: a legitimate ECEF coordinate whose integer part is the reader's no-data marker
         return [r.choice([r.uniform(-6.4e6, 6.4e6), -999999.25, r.uniform(-6.4e6, 6.4e6), 26560123.789]),      # (a GNSS satellite)
